@@ -291,6 +291,9 @@ namespace ip {
 			if (p.buffer.empty()) break;
 		}
 
+		// whatever did not fit in the receive buffers is discarded with the
+		// datagram
+		m_queue_size -= int(p.buffer.size());
 		m_incoming_queue.erase(m_incoming_queue.begin());
 		return read;
 	}
